@@ -343,6 +343,11 @@ mod c38 {
         warm: bool,
         verof: BTreeMap<String, u64>,
         tsof: Vec<u64>,
+        /// lookup process -> key name, publish process -> key name
+        #[serde(default)]
+        rkey: BTreeMap<String, String>,
+        #[serde(default)]
+        pkey: BTreeMap<String, String>,
     }
     #[derive(Serialize)]
     struct Out {
@@ -371,6 +376,7 @@ mod c38 {
 
     struct Proc {
         resolver: bool,
+        key: String,
         ver: u64,
         gates: Vec<String>,
         /// index into `gates` of the pause point the call is held at (None: not there)
@@ -427,7 +433,7 @@ mod c38 {
                         self.out.answers.insert(name.to_string(), *v);
                     }
                     Outcome::Flag(f) => {
-                        self.out.events.push(json!({"ev": "pdone", "p": name, "v": p.ver, "res": f}));
+                        self.out.events.push(json!({"ev": "pdone", "p": name, "k": p.key, "v": p.ver, "res": f}));
                         self.out.flags.insert(name.to_string(), *f);
                     }
                     Outcome::Err(e) => self.out.error = format!("{name}: {e}"),
@@ -477,22 +483,31 @@ mod c38 {
 
     fn run_case(rt: &tokio::runtime::Runtime, store: &VerifZoneStore, case: usize, c: &Case) -> Out {
         let seed = seed();
-        let sk = secret(seed, case as u64, "c38");
-        let key = *sk.public().as_bytes();
-        let z32 = sk.public().to_z32();
-        let mut resolvers: Vec<String> = c.word.iter().filter(|s| s.a == "RCheck").map(|s| s.p.clone()).collect();
-        resolvers.push("rf".into());
-        // one packet per version: the same TXT value under one name per resolver
-        let packets: Vec<_> = (1..=c.tsof.len() as u64)
-            .map(|v| {
-                let recs: Vec<Rec> =
-                    resolvers.iter().map(|r| Rec { zl: "k".into(), rel: r.clone(), ty: "TXT".into(), v }).collect();
-                let dns = dns_payload(&recs, &|_| z32.clone());
-                signed_packet(&sk, TS_BASE + c.tsof[v as usize - 1], &dns)
-            })
-            .collect();
-        for w in packets.windows(2) {
-            assert!(w[1].more_recent_than(&w[0]), "concretisation: version order is not the recency order");
+        let key_of = |p: &str| -> String { c.rkey.get(p).or_else(|| c.pkey.get(p)).cloned().unwrap_or_else(|| "a".to_string()) };
+        let mut key_names: Vec<String> = c.word.iter().map(|s| key_of(&s.p)).collect();
+        key_names.sort();
+        key_names.dedup();
+        // per key: secret, and one packet per version carrying the same TXT value under one name per lookup process
+        // of that key plus the follow-up lookup `rf<key>`
+        let mut key_bytes: BTreeMap<String, [u8; 32]> = BTreeMap::new();
+        let mut packets: BTreeMap<String, Vec<iroh_dns::pkarr::SignedPacket>> = BTreeMap::new();
+        for k in &key_names {
+            let sk = secret(seed, case as u64, &format!("c38{k}"));
+            let z32 = sk.public().to_z32();
+            let mut names: Vec<String> = c.word.iter().filter(|s| s.a == "RCheck" && &key_of(&s.p) == k).map(|s| s.p.clone()).collect();
+            names.push(format!("rf{k}"));
+            let ps: Vec<_> = (1..=c.tsof.len() as u64)
+                .map(|v| {
+                    let recs: Vec<Rec> = names.iter().map(|r| Rec { zl: "k".into(), rel: r.clone(), ty: "TXT".into(), v }).collect();
+                    let dns = dns_payload(&recs, &|_| z32.clone());
+                    signed_packet(&sk, TS_BASE + c.tsof[v as usize - 1], &dns)
+                })
+                .collect();
+            for w in ps.windows(2) {
+                assert!(w[1].more_recent_than(&w[0]), "concretisation: version order is not the recency order");
+            }
+            key_bytes.insert(k.clone(), *sk.public().as_bytes());
+            packets.insert(k.clone(), ps);
         }
         let mut run = Runner {
             rt,
@@ -508,16 +523,18 @@ mod c38 {
                 error: String::new(),
             },
         };
-        // setup: version 1 stored, cache cold or warm
+        // setup: version 1 of every key stored, cache cold or warm
         let setup = rt.block_on(async {
-            let f = store.insert(packets[0].clone()).await.map_err(|e| format!("{e:#}"))?;
-            if !f {
-                return Err("setup insert returned false".to_string());
-            }
-            if c.warm {
-                match resolve_version(store, &key, "rf").await {
-                    Outcome::Ans(1) => {}
-                    o => return Err(format!("setup resolve: {o:?}")),
+            for k in &key_names {
+                let f = store.insert(packets[k][0].clone()).await.map_err(|e| format!("{e:#}"))?;
+                if !f {
+                    return Err("setup insert returned false".to_string());
+                }
+                if c.warm {
+                    match resolve_version(store, &key_bytes[k], &format!("rf{k}")).await {
+                        Outcome::Ans(1) => {}
+                        o => return Err(format!("setup resolve: {o:?}")),
+                    }
                 }
             }
             Ok(())
@@ -538,7 +555,7 @@ mod c38 {
                 (0, vec![format!("dnssrv.resolve.miss:{tag}"), format!("dnssrv.resolve.got:{tag}")])
             } else {
                 let ver = c.verof[&s.p];
-                let tag = packet_tag(&packets[ver as usize - 1]);
+                let tag = packet_tag(&packets[&key_of(&s.p)][ver as usize - 1]);
                 (ver, vec![format!("dnssrv.insert.upserted:{tag}"), format!("dnssrv.insert.invalidated:{tag}")])
             };
             for g in &gates {
@@ -546,7 +563,7 @@ mod c38 {
             }
             run.procs.insert(
                 s.p.clone(),
-                Proc { resolver, ver, gates, at: None, next_gate: 0, handle: None, outcome: None, started: false },
+                Proc { resolver, key: key_of(&s.p), ver, gates, at: None, next_gate: 0, handle: None, outcome: None, started: false },
             );
         }
         for (i, s) in c.word.iter().enumerate() {
@@ -555,13 +572,15 @@ mod c38 {
                 let p = run.procs.get_mut(&s.p).unwrap();
                 p.started = true;
                 let st = store.clone();
+                let kname = key_of(&s.p);
                 if p.resolver {
-                    run.out.events.push(json!({"ev": "rstart", "r": s.p}));
+                    run.out.events.push(json!({"ev": "rstart", "r": s.p, "k": kname}));
                     let name = s.p.clone();
+                    let key = key_bytes[&kname];
                     p.handle = Some(rt.spawn(async move { resolve_version(&st, &key, &name).await }));
                 } else {
-                    run.out.events.push(json!({"ev": "pstart", "p": s.p, "v": p.ver}));
-                    let packet = packets[p.ver as usize - 1].clone();
+                    run.out.events.push(json!({"ev": "pstart", "p": s.p, "k": kname, "v": p.ver}));
+                    let packet = packets[&kname][p.ver as usize - 1].clone();
                     p.handle = Some(rt.spawn(async move {
                         match st.insert(packet).await {
                             Ok(f) => Outcome::Flag(f),
@@ -621,14 +640,17 @@ mod c38 {
         }
         verif::clear_gates();
         if !run.out.hang {
-            // follow-up lookup, started after every acknowledgement
-            run.out.events.push(json!({"ev": "rstart", "r": "rf"}));
-            match rt.block_on(resolve_version(store, &key, "rf")) {
-                Outcome::Ans(v) => {
-                    run.out.events.push(json!({"ev": "rdone", "r": "rf", "ans": v}));
-                    run.out.answers.insert("rf".into(), v);
+            // follow-up lookups (one per key), started after every acknowledgement
+            for k in &key_names {
+                let rf = format!("rf{k}");
+                run.out.events.push(json!({"ev": "rstart", "r": rf, "k": k}));
+                match rt.block_on(resolve_version(store, &key_bytes[k], &rf)) {
+                    Outcome::Ans(v) => {
+                        run.out.events.push(json!({"ev": "rdone", "r": rf, "ans": v}));
+                        run.out.answers.insert(rf, v);
+                    }
+                    o => run.out.error = format!("follow-up: {o:?}"),
                 }
-                o => run.out.error = format!("follow-up: {o:?}"),
             }
         }
         run.out
